@@ -732,12 +732,14 @@ def gen_c12(rng: random.Random, kind: str, P: Optional[dict] = None) -> dict:
     P = {**DEFAULT_P, **(P or {})}
     g = _Gen(rng, P)
     if kind == "free":
-        kind = rng.choice(["basic", "basic", "method1", "methodN", "nested", "two"])
+        kind = rng.choice(["basic", "basic", "method1", "methodN", "nested", "two", "chain"])
     if kind == "nested":
         g.P = {**P, "p_nest": 0.9, "max_nest": rng.choice([1, 1, 2])}
     else:
         g.P = {**P, "p_nest": 0.12}
-    if kind in ("basic", "nested", "two"):
+    if kind == "chain":
+        _gen_chain(g, rng, P)
+    elif kind in ("basic", "nested", "two"):
         blk = g.calls(0, 2, 0.2)
         blk.insert(rng.randint(0, len(blk)), g.cond(0))
         if kind == "two":
@@ -756,6 +758,31 @@ def gen_c12(rng: random.Random, kind: str, P: Optional[dict] = None) -> dict:
     if rng.random() < 0.3:  # an unrelated bystander transaction
         g.items.append({"k": "trans", "name": g.tname(), "ready": g.maybe_inp(0.8), "block": g.calls(0, 2, 0.3)})
     return g.spec(f"c12:{kind}")
+
+
+def _gen_chain(g: "_Gen", rng: random.Random, P: dict):
+    """the condition-hosting method is reached through a call chain of 2-3 calls (transaction -> wrapper methods ->
+    host); each link is conditional (`enable_call`) with some probability, at least one link usually is"""
+    host = g.mname()
+    blk = g.calls(0, 1, 0.2)
+    blk.insert(rng.randint(0, len(blk)), g.cond(0))
+    g.items.append({"k": "method", "name": host, "ready": g.maybe_inp(0.5), "nx": 0, "block": blk})
+    nlinks = rng.choice([2, 2, 3])
+    cond_links = [rng.random() < 0.45 for _ in range(nlinks)]
+    if not any(cond_links) and rng.random() < 0.85:
+        cond_links[rng.randrange(nlinks)] = True
+    callee = host
+    for lvl in range(nlinks - 1):  # wrapper methods, innermost first
+        wn = g.mname()
+        wb = g.calls(0, 1, 0.2)
+        wb.insert(rng.randint(0, len(wb)), {"k": "call", "m": callee, "en": (g.inp() if cond_links[lvl] else None), "arg": None})
+        g.items.append({"k": "method", "name": wn, "ready": g.maybe_inp(0.5), "nx": 0, "block": wb})
+        callee = wn
+    for k in range(rng.choice([1, 1, 2])):
+        cb = g.calls(0, 1, 0.2)
+        en = g.inp() if (cond_links[-1] if k == 0 else rng.random() < 0.4) else None
+        cb.insert(rng.randint(0, len(cb)), {"k": "call", "m": callee, "en": en, "arg": None})
+        g.items.append({"k": "trans", "name": g.tname(), "ready": g.maybe_inp(P["p_parent_ready"]), "block": cb})
 
 
 def gen_c13(rng: random.Random, kind: str, P: Optional[dict] = None) -> dict:
